@@ -11,3 +11,4 @@ import VK.Props.C08CandOrderSTV
 import VK.Props.C08CandOrderPairwise
 import VK.Props.C08Rep
 import VK.Props.C08CandOrderTopTwo
+import VK.Props.C08CandOrderAlaska
